@@ -49,6 +49,9 @@ pub struct Case {
     pub cfgs: Vec<Cfg>,
     /// 0 = "\n" line ends, 1 = "\r\n", 2 = "\n" but no newline after the last line of each file
     pub eol: u8,
+    /// 0 = every input is a file; i > 0 = input number (i-1) mod #files is given as "-" and
+    /// arrives on standard input (a pipe: it can be read once)
+    pub stdin: u8,
 }
 
 impl Case {
@@ -56,7 +59,7 @@ impl Case {
         json!({"mode": self.mode.name(),
                "files": self.files.iter().map(|f| f.iter().map(|(k, v)| json!([k, v])).collect::<Vec<_>>()).collect::<Vec<_>>(),
                "configs": self.cfgs.iter().map(|c| json!([c.batch, c.fd, c.threads, c.sched.to_string()])).collect::<Vec<_>>(),
-               "eol": self.eol})
+               "eol": self.eol, "stdin": self.stdin})
     }
     fn from_json(v: &Value) -> Option<Case> {
         let files = v
@@ -71,7 +74,7 @@ impl Case {
             .iter()
             .map(|c| Some(Cfg { batch: c.get(0)?.as_u64()? as u32, fd: c.get(1)?.as_u64()? as u32, threads: c.get(2)?.as_u64()? as u32, sched: c.get(3)?.as_str()?.parse().ok()? }))
             .collect::<Option<Vec<_>>>()?;
-        Some(Case { mode: Mode::from_name(v.get("mode")?.as_str()?)?, files, cfgs, eol: v.get("eol").and_then(|x| x.as_u64()).unwrap_or(0) as u8 })
+        Some(Case { mode: Mode::from_name(v.get("mode")?.as_str()?)?, files, cfgs, eol: v.get("eol").and_then(|x| x.as_u64()).unwrap_or(0) as u8, stdin: v.get("stdin").and_then(|x| x.as_u64()).unwrap_or(0) as u8 })
     }
     fn rows(&self) -> Vec<&(String, u64)> {
         self.files.iter().flat_map(|f| f.iter()).collect()
@@ -146,8 +149,13 @@ fn run_cli(dir: &PathBuf, case: &Case, inputs: &[PathBuf], cfg: Option<Cfg>, idx
     let mut cmd = Command::new(fst_bin());
     cmd.arg(if case.mode == Mode::Set { "set" } else { "map" });
     // this CLI (clap 2, multiple positional inputs) wants options after the positionals
-    for i in inputs {
-        cmd.arg(i);
+    let piped: Option<usize> = if cfg.is_some() && case.stdin > 0 && !inputs.is_empty() { Some((case.stdin as usize - 1) % inputs.len()) } else { None };
+    for (n, i) in inputs.iter().enumerate() {
+        if piped == Some(n) {
+            cmd.arg("-");
+        } else {
+            cmd.arg(i);
+        }
     }
     cmd.arg(&out);
     match case.mode {
@@ -172,11 +180,24 @@ fn run_cli(dir: &PathBuf, case: &Case, inputs: &[PathBuf], cfg: Option<Cfg>, idx
     }
     cmd.env("FST_VERIF_TRACE", &trace);
     let desc = || match cfg {
-        Some(c) => format!("batch-size={} fd-limit={} threads={} sched-seed={}", c.batch, c.fd, c.threads, c.sched),
+        Some(c) => format!("batch-size={} fd-limit={} threads={} sched-seed={}{}", c.batch, c.fd, c.threads, c.sched, piped.map(|n| format!(" input #{} on stdin", n)).unwrap_or_default()),
         None => "--sorted".to_string(),
     };
     // normal runs take milliseconds; one that is still running after 45 seconds has hung
+    let stdin_data = match piped {
+        Some(n) => Some(std::fs::read(&inputs[n]).map_err(|e| Fail::new("harness-io", e.to_string()))?),
+        None => None,
+    };
+    cmd.stdin(if stdin_data.is_some() { std::process::Stdio::piped() } else { std::process::Stdio::null() });
     let mut child = cmd.stdout(std::process::Stdio::null()).stderr(std::process::Stdio::piped()).spawn().map_err(|e| Fail::new("harness-io", format!("cannot run {:?}: {}", fst_bin(), e)))?;
+    let feeder = stdin_data.map(|data| {
+        let mut pipe = child.stdin.take().expect("piped stdin");
+        std::thread::spawn(move || {
+            use std::io::Write;
+            let _ = pipe.write_all(&data);
+            // dropping the pipe closes it: end of input
+        })
+    });
     let t0 = std::time::Instant::now();
     let limit = std::time::Duration::from_secs(std::env::var("VERIF_CLI_TIMEOUT_S").ok().and_then(|s| s.parse().ok()).unwrap_or(45));
     loop {
@@ -192,6 +213,9 @@ fn run_cli(dir: &PathBuf, case: &Case, inputs: &[PathBuf], cfg: Option<Cfg>, idx
             }
             Err(e) => return Err(Fail::new("harness-io", e.to_string())),
         }
+    }
+    if let Some(h) = feeder {
+        let _ = h.join();
     }
     let res = child.wait_with_output().map_err(|e| Fail::new("harness-io", e.to_string()))?;
     if !res.status.success() {
@@ -295,6 +319,9 @@ pub fn check(case: &Case, rec: &mut Rec) -> CheckResult {
                 rec.class("at_least_2_union_generations");
             }
             rec.class(&format!("threads_{}", cfg.threads));
+            if case.stdin > 0 {
+                rec.class("input_on_stdin");
+            }
             groupings.insert(info.grouping.clone());
             if info.kv_batches >= 2 && info.generations >= 1 && has_repeats {
                 nontrivial_seen = true;
@@ -383,7 +410,7 @@ pub fn case_strategy() -> impl Strategy<Value = Case> {
                 files[(i / per.max(1)).min(nfiles - 1)].push(r);
             }
             let n: usize = files.iter().map(|f| f.len()).sum();
-            (cfgs_strategy(n), prop_oneof![4 => Just(0u8), 1 => Just(1u8), 1 => Just(2u8)], prop::bool::weighted(0.15)).prop_map(move |(cfgs, eol, bigvals)| {
+            (cfgs_strategy(n), prop_oneof![4 => Just(0u8), 1 => Just(1u8), 1 => Just(2u8)], prop::bool::weighted(0.15), prop_oneof![3 => Just(0u8), 1 => 1u8..=3]).prop_map(move |(cfgs, eol, bigvals, stdin)| {
                 let mut files = files.clone();
                 if bigvals {
                     // values beyond 32 bits (sums of <= 40 rows cannot overflow)
@@ -393,13 +420,13 @@ pub fn case_strategy() -> impl Strategy<Value = Case> {
                         }
                     }
                 }
-                Case { mode, files, cfgs, eol }
+                Case { mode, files, cfgs, eol, stdin }
             })
         })
 }
 
 pub fn run(e: &Engine) {
-    e.set_rule("cases are (input multiset of lines / CSV rows in 1..3 files, merge mode set/sum/max/min, 3..5 configurations of batch-size x fd-limit x threads x schedule seed); the fst binary (hooks on) is run as a child process for each configuration; oracle: exit status 0, output exists, opens, verifies, content equals the BTreeMap fold of all rows under the merge mode, outputs byte-identical across configurations; for inputs without repeated keys additionally byte-identical to `--sorted` on the sorted data and to a library build; evaluations counts CLI runs; non-trivial = run with >= 2 batches and >= 1 union generation (from the trace hook) on an input with a repeated key; distinct by (input, configuration)");
+    e.set_rule("cases are (input multiset of lines / CSV rows in 1..3 files, one of which may arrive on standard input as `-`, merge mode set/sum/max/min, 3..5 configurations of batch-size x fd-limit x threads x schedule seed); the fst binary (hooks on) is run as a child process for each configuration; oracle: exit status 0, output exists, opens, verifies, content equals the BTreeMap fold of all rows under the merge mode, outputs byte-identical across configurations; for inputs without repeated keys additionally byte-identical to `--sorted` on the sorted data and to a library build; evaluations counts CLI runs; non-trivial = run with >= 2 batches and >= 1 union generation (from the trace hook) on an input with a repeated key; distinct by (input, configuration)");
     e.assume("interleavings are perturbed by seeded delays and thread counts, not enumerated; keys are non-empty, without newline; values small enough that sums cannot overflow; fd-limit >= 2");
     if !fst_bin().exists() {
         e.inconclusive(format!("fst binary {:?} not built", fst_bin()));
@@ -411,6 +438,7 @@ pub fn run(e: &Engine) {
         files: files.into_iter().map(|f| f.into_iter().map(|(k, v)| (k.to_string(), v)).collect()).collect(),
         cfgs: cfgs.into_iter().enumerate().map(|(i, (batch, fd, threads))| Cfg { batch, fd, threads, sched: i as u64 }).collect(),
         eol: 0,
+        stdin: 0,
     };
     let fixed = vec![
         mk(Mode::Sum, vec![vec![("a", 1), ("b", 2), ("c", 3), ("d", 4), ("e", 5)]], vec![(1, 2, 1), (2, 2, 3), (5, 15, 16), (6, 3, 2)]),
@@ -420,7 +448,7 @@ pub fn run(e: &Engine) {
     e.run_list("fixed-inputs", &fixed, |c| c.to_json(), check);
     e.max_shrink_iters.store(120, std::sync::atomic::Ordering::SeqCst);
     e.run_prop("random-inputs-x-configurations", e.tier.pick(1500, 40_000), case_strategy, |c| c.to_json(), check);
-    for cls in ["at_least_2_batches", "at_least_1_union_generation", "at_least_2_union_generations", "unique_keys_compared_with_sorted_build", "has_repeated_keys"] {
+    for cls in ["at_least_2_batches", "at_least_1_union_generation", "at_least_2_union_generations", "unique_keys_compared_with_sorted_build", "has_repeated_keys", "input_on_stdin"] {
         e.require_class(cls, 1);
     }
 }
